@@ -38,6 +38,7 @@ import common
 import h4_support as h4
 import h4_round5 as r5
 import h4_round6 as r6
+import h4_round7 as r7
 from props import C02
 
 ID = "C19"
@@ -291,6 +292,7 @@ class History:
         self.lengths = []
         self.files = []
         self.nfiles = 0
+        self.paths, self.pathset = [], set()
         self.log = []
         if via_reader:
             from codelimit.common.report.ReportReader import ReportReader
@@ -307,7 +309,8 @@ class History:
             if start_lengths:
                 self.add(start_lengths)
 
-    def add(self, lengths, language="Python"):
+    def add(self, lengths, language="Python", path=None):
+        """path None: drawn from the path pool (mostly d<i>/f<k>.<ext>, a share of CASE TWINS of the paths added before)"""
         from codelimit.common.Location import Location
         from codelimit.common.Measurement import Measurement
         from codelimit.common.SourceFileEntry import SourceFileEntry
@@ -316,9 +319,14 @@ class History:
         for i, v in enumerate(lengths):
             ms.append(Measurement("f%d" % i, Location(line, 1), Location(line + v, 1), v))
             line += v + 1
-        self.rep.codebase.add_file(SourceFileEntry("d%d/f%d.%s" % (self.nfiles % 7, self.nfiles, LANG_EXT.get(language, "x")), "00", language, sum(lengths), ms))
+        if path is None:
+            path = r7.pool_path(self.rnd, self.paths, "d%d/f%d.%s" % (self.nfiles % 7, self.nfiles, LANG_EXT.get(language, "x")), taken_set=self.pathset)
+        self.paths.append(path)
+        self.pathset.add(path)
+        self.rep.codebase.add_file(SourceFileEntry(path, "00", language, sum(lengths), ms))
         self.lengths += list(lengths)
-        self.files.append([list(lengths), language])
+        self.files.append([list(lengths), language, path])
+        self.last_path = path
         self.log.append(["add_file", list(lengths) if len(lengths) <= 12 else "%d functions" % len(lengths)])
 
     def query(self, width=300, prev_files=None, through_report=False):
@@ -338,20 +346,30 @@ LANG_EXT = {"Python": "py", "TypeScript": "ts", "Java": "java", "C": "c", "JavaS
 LANG_POOL = list(LANG_EXT)
 
 
+def with_paths(rnd, files):
+    """give every file [lengths, language] of a generated code base its path from the path pool (CASE TWINS included)"""
+    out = []
+    for k, f in enumerate(files):
+        out.append([f[0], f[1], r7.pool_path(rnd, [g[2] for g in out], "d%d/f%d.%s" % (k % 5, k, LANG_EXT.get(f[1], "x")))])
+    return out
+
+
 def build_files_report(files, root="/r"):
-    """a real Report over a real, aggregated Codebase with the given files ([[lengths, language], ...], in this order)"""
+    """a real Report over a real, aggregated Codebase with the given files ([[lengths, language(, path)], ...], in this order)"""
     from codelimit.common.Codebase import Codebase
     from codelimit.common.Location import Location
     from codelimit.common.Measurement import Measurement
     from codelimit.common.SourceFileEntry import SourceFileEntry
     from codelimit.common.report.Report import Report
     cb = Codebase(root)
-    for k, (lengths, language) in enumerate(files):
+    for k, f in enumerate(files):
+        lengths, language = f[0], f[1]
         ms, line = [], 1
         for i, v in enumerate(lengths):
             ms.append(Measurement("f%d" % i, Location(line, 1), Location(line + v, 1), v))
             line += v + 1
-        cb.add_file(SourceFileEntry("d%d/f%d.%s" % (k % 5, k, LANG_EXT.get(language, "x")), "00", language, sum(lengths), ms))
+        path = f[2] if len(f) > 2 and f[2] else "d%d/f%d.%s" % (k % 5, k, LANG_EXT.get(language, "x"))
+        cb.add_file(SourceFileEntry(path, "00", language, sum(lengths), ms))
     cb.aggregate()
     return Report(cb)
 
@@ -364,7 +382,7 @@ def replay_history(steps):
     bad = []
     for st in steps[1:] if first[0] in ("reader", "new") else steps:
         if st[0] == "add_file":
-            h.add(st[1], st[2] if len(st) > 2 else "Python")
+            h.add(st[1], st[2] if len(st) > 2 else "Python", st[3] if len(st) > 3 else "d%d/f%d.%s" % ((h.nfiles + 1) % 7, h.nfiles + 1, LANG_EXT.get(st[2] if len(st) > 2 else "Python", "x")))
         elif st[0] == "summary":
             p, obs = h.query(st[1], st[2] if len(st) > 2 else None, bool(st[3]) if len(st) > 3 else False)
             bad += oracle_observation(p, obs, st[1])
@@ -382,7 +400,7 @@ def run_report_command(cur, prev, width, fresh=False):
     from codelimit.commands.report import report_command
     from codelimit.common.report.ReportFormat import ReportFormat
     from codelimit.common.report.ReportWriter import ReportWriter
-    p = true_profile([v for ls, _l in cur for v in ls])
+    p = true_profile([v for f in cur for v in f[0]])
     d = tempfile.mkdtemp(prefix="c19_")
     old_cols = os.environ.get("COLUMNS")
     os.environ["COLUMNS"] = str(width)
@@ -549,7 +567,7 @@ def run_object_streams(ctx, dis, fails, dist):
                     if k < 0.4:
                         prev = [list(f) for f in h.files[:rnd.randint(0, len(h.files))]]
                     elif k < 0.6:
-                        prev = [[gen_lengths(rnd, rnd.choice([1, 3, 8])), rnd.choice(langs)] for _ in range(rnd.randint(1, 3))]
+                        prev = with_paths(rnd, [[gen_lengths(rnd, rnd.choice([1, 3, 8])), rnd.choice(langs)] for _ in range(rnd.randint(1, 3))])
                     elif k < 0.75:
                         prev = [list(f) for f in h.files]
                     elif k < 0.85:
@@ -564,9 +582,11 @@ def run_object_streams(ctx, dis, fails, dist):
                     ls = gen_lengths(rnd, rnd.choice([1, 1, 2, 3, 8]))
                     lang = rnd.choice(langs)
                     h.add(ls, lang)
-                    h.steps.append(["add_file", ls, lang])
+                    h.steps.append(["add_file", ls, lang, h.last_path])
             ask(300)
         dist["histories"] = dist.get("histories", 0) + 1
+        if r7.has_case_twins([f[2] for f in h.files]):
+            dist["histories_with_case_twin_paths"] = dist.get("histories_with_case_twin_paths", 0) + 1
         nl = len({f[1] for f in h.files})
         dist.setdefault("languages_per_history", {})[nl] = dist.setdefault("languages_per_history", {}).get(nl, 0) + 1
         seq = [f[1] for f in h.files]
@@ -585,7 +605,7 @@ def run_object_streams(ctx, dis, fails, dist):
             per = max(1, n // nfiles)
             for i in range(0, n, per):
                 h.add(ls[i:i + per])
-                h.steps.append(["add_file", ls[i:i + per]])
+                h.steps.append(["add_file", ls[i:i + per], "Python", h.last_path])
                 if i == (nfiles // 2) * per:
                     p, obs = h.query(120)
                     h.steps.append(["summary", 120])
@@ -612,7 +632,7 @@ def run_object_streams(ctx, dis, fails, dist):
             for part, lang in zip(cut, ("Python", "TypeScript", "Python")):
                 if part:
                     h.add(part, lang)
-                    h.steps.append(["add_file", part, lang])
+                    h.steps.append(["add_file", part, lang, h.last_path])
         for wi, w in enumerate(W):
             through = wi % 3 == 0
             p, obs = h.query(w, None, through)
@@ -631,10 +651,12 @@ def run_object_streams(ctx, dis, fails, dist):
     n_fresh = ctx.pick(2, 20)
     for k in range(n_cmd + n_fresh):
         langs = rnd.sample(LANG_POOL, rnd.choice([1, 2, 2, 3, 4]))
-        cur = [[gen_lengths(rnd, rnd.choice([1, 2, 3, 8])), rnd.choice(langs)] for _ in range(rnd.randint(1, 6))]
+        cur = with_paths(rnd, [[gen_lengths(rnd, rnd.choice([1, 2, 3, 8])), rnd.choice(langs)] for _ in range(rnd.randint(1, 6))])
+        if r7.has_case_twins([f[2] for f in cur]):
+            dist["commands_with_case_twin_paths"] = dist.get("commands_with_case_twin_paths", 0) + 1
         r = rnd.random()
         prev = None if r < 0.3 else [list(f) for f in cur[:rnd.randint(0, len(cur))]] if r < 0.6 else \
-            [[gen_lengths(rnd, rnd.choice([1, 3, 8])), rnd.choice(langs)] for _ in range(rnd.randint(0, 3))] if r < 0.9 else [list(f) for f in cur]
+            with_paths(rnd, [[gen_lengths(rnd, rnd.choice([1, 3, 8])), rnd.choice(langs)] for _ in range(rnd.randint(0, 3))]) if r < 0.9 else [list(f) for f in cur]
         w = rnd.choice([60, 80, 100, 120, 200, 300])
         fresh = k >= n_cmd
         bad = run_report_command(cur, prev, w, fresh)
@@ -652,6 +674,8 @@ def run_object_streams(ctx, dis, fails, dist):
         dist["scan_histories"] = dist.get("scan_histories", 0) + 1
         dist["scan_history_observations"] = dist.get("scan_history_observations", 0) + nobs
         for st in steps:
+            if st[0] == "add" and len(st) > 3:
+                dist["scan_history_case_twin_adds"] = dist.get("scan_history_case_twin_adds", 0) + 1
             if st[0] not in ("scan", "report"):
                 dist.setdefault("scan_history_edits", {})[st[0]] = dist.setdefault("scan_history_edits", {}).get(st[0], 0) + 1
         if bad:
@@ -757,6 +781,11 @@ def correspond(ctx):
                        "are known by construction; edits: add, add an empty file, add a non-source file, remove, remove a folder, copy, move, modify, touch, "
                        "exclude through a new .gitignore line; every third round is ONE edit of one kind) observed at the summary `codelimit scan` prints "
                        "(scan_command, consoles 80..200) and at `codelimit report` (text / Markdown) after and between the scans: " + str(dist.get("scan_history_observations", 0)) + " observations"
+                       "; round 7: CASE TWINS in every path pool - a fifth of the files added to a history, to the code base of a written report and to "
+                       "a comparison report, and the `add-twin` / copy-to-twin / move-to-twin edits of the working trees, get a path that differs from an "
+                       "earlier file's path only in the letter case of a folder name or of the file name's stem (two files on a case-sensitive file system): "
+                       + str(dist.get("histories_with_case_twin_paths", 0)) + " histories, " + str(dist.get("commands_with_case_twin_paths", 0)) + " written reports, "
+                       + str(dist.get("scan_history_case_twin_adds", 0)) + " working-tree adds with such paths"
                        "; non-trivial = distinct profiles with a positive hard-to-maintain or unmaintainable percentage",
         "samples": [{"profile": p, "model": m} for p, m in list(zip(ps, model))[-4:]] + [{"profile": (0, 0, 31, 62), "impl": real_qpp((0, 0, 31, 62))[0]}],
         "exhaustive": True, "distribution": dist,
